@@ -144,6 +144,16 @@ def gen_rules_model(rng, n, fields=(), sources=(), simple=False, supplemental=No
         if not simple:
             if rng.random() < 0.2:
                 rule['merchant'] = name + ' Store'
+            if rng.random() < 0.2:
+                # a value is the rest of its line, whatever it contains: characters that mean something in YAML, INI, shells or CSV
+                # (a `#` after a blank, `;`, `:`, `=`, quotes, brackets, a trailing backslash) are part of the value here
+                rule['merchant'] = rng.choice([name + ' #4411', '#1 ' + name, name + ': Mobile', name + ' "R" Us', name + "'s", 'A = ' + name,
+                                               '[' + name + ']', name + ' ; drop', name + ' \\', name + ' {x}', name + ' // ' + name])
+            if rng.random() < 0.12 and rule['category']:
+                rule['category'], rule['subcategory'] = rng.choice([('Food & Drink', 'Misc #2'), ('Bills: Utilities', 'Gas; Water'), ('Misc #2', 'A = B'),
+                                                                    ("Kids' Stuff", '"Quoted"'), ('Work [US]', 'Travel #1')])
+            if rng.random() < 0.12:
+                rule['tags'] = rule['tags'] + [rng.choice(['#deductible', 'tax:2025', 'q1=yes', "kids'", 'a;b', 'x #y'])]
             if rng.random() < 0.15:
                 rule['priority'] = rng.choice([10, 60, 100])
             if rng.random() < 0.15:
